@@ -485,10 +485,18 @@ def corr_whole(ctx, form, holes, survey):
     if not qs:
         return
     res = ctx.driver.call("refs.model", tree=tree, queries=qs)
+    # The context handed to insert_xpaths is a call-site choice, not part of the Lean model.  For the value of a
+    # triggered calculation the code passes the triggering question (finding F39); a repaired call site passes the
+    # calculated question.  Either is the model function at *some* call-site context; the oracle judges the choice.
+    alt = [(h, dict(q, ctx=h["ctx"])) for h, q in zip(hs, qs) if h["cell"] == "trigger-value"]
+    altres = {}
+    if alt:
+        for (h, _q), m in zip(alt, ctx.driver.call("refs.model", tree=tree, queries=[q for _h, q in alt])):
+            altres[id(h)] = (m.get("text") or "").strip() if m["out"] == "ok" else m["out"]
     for h, q, m in zip(hs, qs, res):
         got = h["hole"]
         want = (m.get("text") or "").strip() if m["out"] == "ok" else m["out"]
-        if got != want:
+        if got != want and altres.get(id(h)) != got:
             ctx.mismatch(f"hole of {h['cell']}", {"form": form, "query": q}, got, want)
 
 
